@@ -296,6 +296,25 @@ fn gen_reads(
 }
 
 fn gen_table(rng: &mut Rng, pal: &[u8], pats: &[Vec<u8>]) -> Vec<Vec<u8>> {
+    if rng.chance(1, 30) {
+        // mixed sizes: some replacements far larger than any internal buffer or
+        // batching threshold (1 KiB .. 70 KiB), the others tiny and non-empty
+        return pats
+            .iter()
+            .enumerate()
+            .map(|(i, _)| {
+                if rng.chance(3, 10) {
+                    let n = *rng.pick(&[1000usize, 4095, 4096, 4097, 8192, 16384, 65536, 70000]);
+                    let mut v = rand_bytes(rng, pal, n);
+                    v[0] = b'[';
+                    v[n - 1] = b']';
+                    v
+                } else {
+                    vec![b'0' + (i % 10) as u8; rng.range(1, 3)]
+                }
+            })
+            .collect();
+    }
     let style = rng.below(6);
     pats.iter()
         .enumerate()
@@ -427,6 +446,25 @@ pub fn gen_small(prop: &str, seed: u64, idx: u64) -> (StreamScenario, GenInfo) {
         },
     };
     let table = gen_table(r, &pal, &pats);
+    let mut stream = stream;
+    let mut table = table;
+    let huge_table = table.iter().any(|t| t.len() >= 1000);
+    if huge_table {
+        // output size is (matches x replacement length): bound the run's cost
+        let cap = if prop == "C18" { 60 } else { 160 };
+        if stream.len() > cap {
+            stream.truncate(cap);
+            reads.truncate(cap + 10);
+        }
+        if prop == "C18" {
+            // every fault position is re-executed: keep the large entries just above 4 KiB
+            for t in table.iter_mut() {
+                if t.len() > 4200 {
+                    t.truncate(4200);
+                }
+            }
+        }
+    }
     let closure = if r.chance(3, 20) {
         vec![ClosureStep::Echo]
     } else {
@@ -443,7 +481,14 @@ pub fn gen_small(prop: &str, seed: u64, idx: u64) -> (StreamScenario, GenInfo) {
             })
             .collect()
     };
-    let (writes, default_write) = gen_writes(r, stream.len() + 8);
+    let (mut writes, mut default_write) = gen_writes(r, stream.len() + 8);
+    if huge_table {
+        // no byte-at-a-time acceptance of kilobyte replacements
+        writes.retain(|w| !matches!(w, WriteStep::Accept(n) if *n < 64));
+        if matches!(default_write, WriteStep::Accept(n) if n < 64) {
+            default_write = *r.pick(&[WriteStep::All, WriteStep::Half, WriteStep::Accept(1000)]);
+        }
+    }
     let infallible_ctor = opts.surface == Surface::Top && op == StreamOp::Find && r.chance(3, 10);
     let sc = StreamScenario {
         prop: prop.to_string(),
